@@ -383,3 +383,28 @@ func tokenize
   loop 8 invariant 0 <= i && i <= len(expr) && i > atloop(1, i) && i > atloop(7, i) && start__4 == atloop(1, i)
   loop 8 decreases len(expr) - i
 @*/
+
+/*@
+// ---- construction of an expression: the text given is what is validated, tokenised and parsed; when the hand-written
+// parser cannot take it, the very same text is handed to expr-lang
+extern validateBasicSyntax
+  props C06 C13
+  option pure
+
+func NewExpression
+  props C06 C13
+  option assumed_frame
+  observe toks := tokenize
+  observe tokErr := tokenize#1
+  observe tree := parseExpression
+  observe treeErr := parseExpression#1
+  observe bad := validateBasicSyntax
+  before validateBasicSyntax the-text-validated-is-the-text-given: $arg0 == exprStr
+  before tokenize the-text-tokenised-is-the-text-given: $arg0 == exprStr
+  before parseExpression what-was-just-tokenised-is-parsed: seqeq($arg0, $toks)
+  ensures an-expression-or-an-error: result1 == nil ==> result0 != nil
+  atreturn an-invalid-text-is-an-error: $bad != nil ==> result0 == nil && result1 != nil
+  atreturn a-parsed-tree-is-used-as-it-is: $bad == nil && $tokErr == nil && $treeErr == nil ==> result1 == nil && fresh(result0) && result0.Root == $tree && !result0.useExprLang
+  atreturn what-the-parser-cannot-take-goes-to-expr-lang-as-the-same-text: $bad == nil && ($tokErr != nil || $treeErr != nil) ==> result1 == nil && fresh(result0) && result0.Root == nil && result0.useExprLang && result0.exprLangExpression == exprStr
+@*/
+
